@@ -89,7 +89,12 @@ func (vc *VCache) mapLabel(label uint64, mappedVersions distFromRoot) (uint64, b
 	if !found {
 		return label, false
 	}
-	return vm.value(mappedVersions)
+	mapped, present := vm.value(mappedVersions)
+	if !present {
+		// only versions outside this ancestry (siblings, descendants) have mapped the label
+		return label, false
+	}
+	return mapped, true
 }
 
 // set mapping with expectation that SVMap has been locked for write
